@@ -185,6 +185,8 @@ def find_nodes(t, head):
 def show(t) -> str:
     if is_hole(t):
         return "X"
+    if isinstance(t, list) and t and not isinstance(t[0], str):
+        return "(" + ", ".join(show(x) for x in t) + ")"
     if isinstance(t, list) and t:
         if t[0] == "k":
             return repr(t[1])
